@@ -1,6 +1,7 @@
 import PyrollProofs.HookOrderLemmas
 import PyrollProofs.HookEvalLemmas
 import PyrollProofs.HookUseLemmas
+import PyrollModel.HookSource
 
 /-!
 # C01 — hook resolution order is a pure function of the registrations and the class hierarchy
@@ -10,8 +11,9 @@ Model: `PyrollModel/HookReg.lean` (six stores per class, lazily created per-subc
 `PyrollModel/HookOps.lean` (histories: the concrete machine `run` and the abstract machine `arun` = class hierarchy +
 log of live registrations, which ignores every mere access), `PyrollModel/HookUse.lean` (objects that are used several
 times: the marks as STATE with the `try … finally` of `HookFunction.__call__`, implementations that fail while the input
-of their object is missing, `has_value`, `reevaluate_cache`, the value cache).  Tied to `pyroll/core/hooks.py` by the correspondence
-harness `driver/props/c01.py`.  Only property theorems live here; helper lemmas are in `PyrollProofs/Hook*Lemmas.lean`.
+of their object is missing, `has_value`, `reevaluate_cache`, the value cache).  Tied to `pyroll/core/hooks.py` by the source-level
+tie of the first section (T: tables regenerated from the source on every run, consumed by the model or pinned) and by the
+correspondence harness `driver/props/c01.py` (K).  Only property theorems live here; helper lemmas are in `PyrollProofs/Hook*Lemmas.lean`.
 
 All theorems quantify over EVERY history `ops : List Op` (class definitions with arbitrary `__mro__` data - ill-formed
 ones are rejected by `classOk` on both machines -, `extension_class`, registrations, removals through any class,
@@ -19,6 +21,81 @@ accesses through classes and instances, reads); no well-formedness hypothesis on
 -/
 
 namespace Hooks
+
+/-! ## the tie of the hand-written model to the source (T)
+
+`pyroll/core/hooks.py` is re-read on every run of `./check C01` (`driver/translate/hooks_skeleton.py` →
+`PyrollModel/Gen/C01Hooks.lean`).  Two theorems tie the models above to what was read:
+
+* `hooks_source_consumed` - the parts of the source that are pure data are not written into the model but CONSUMED by it:
+  the order of the six `yield from` lines of `functions_gen` (`implTiers`), the `reversed(...)` of
+  `_yield_functions_from` (`orient`), the store `add_function` appends to for each flag combination (`addStore?`), the
+  stores `remove_function` looks into (`removeHits`), whether the re-entrancy mark is discarded in the `finally` clause
+  (`excUnmark`).  `implOrder`, `run`, `urun`, `evx`, `readOut` - everything the theorems of this file are about - are the
+  model instantiated with the generated values, and the theorem states what these values are; the simulation proof
+  (`PyrollProofs/HookRegLemmas.lean`: `implTiers_eq`, `orient_gen`, `addStore_gen`, `removeHits_gen`; `HookUseLemmas.lean`:
+  `excUnmark_gen`) uses exactly these facts, so a source change that alters one of them stops `order_refines` and
+  `marks_restored_on_every_path` (and what follows from them) from building.
+* `hooks_source_as_modelled` - the statements of the other mirrored functions, in canonical form, are the ones the
+  hand-written model was read against (`PyrollModel/HookSource.lean`), together with every writer of the six stores and of
+  `_active_instances` anywhere in the file and the names defined in the classes `HookFunction`, `Hook`, `_HookHostMeta`. -/
+
+/-- **Source tie, consumed part**: the generated tables the model is instantiated with say what the model's proofs need -/
+theorem hooks_source_consumed :
+    implTiers = tiers6 ∧
+    Gen.C01.Hooks.functionsGenOrder.map storeKey = tiers6.map some ∧
+    (∀ l : List HF, orient Gen.C01.Hooks.yieldReversed l = l.reverse) ∧
+    (∀ (w : Bool) (t : Tier), addStore? w t = some (w, t)) ∧
+    (∀ (w : Bool) (t : Tier), removeHits w t = true) ∧
+    (∀ (m : List (Nat × Nat)) (k : Nat × Nat), excUnmark m k = m.erase k) :=
+  ⟨implTiers_eq, by decide, orient_gen, addStore_gen, removeHits_gen, excUnmark_gen⟩
+
+/-- the model really follows the tables: with the `reversed` dropped, two tier lines swapped, a store forgotten by
+    `remove_function` or the tryfirst / trylast tests exchanged it computes something else -/
+example : orient false [⟨0, false, .ret none⟩, ⟨1, false, .ret none⟩] = [⟨0, false, .ret none⟩, ⟨1, false, .ret none⟩] ∧
+    ["_wrappers", "_first_wrappers"].filterMap storeKey = [(true, .normal), (true, .first)] ∧
+    (selectStore [(false, "trylast", "_last_functions"), (false, "", "_functions")] false true false).bind storeKey
+      = some (false, .normal) ∧
+    (["_functions"].any fun s => storeKey s == some (true, Tier.last)) = false := by decide
+
+/-- **Source tie, pinned part**: the mirrored statements (canonical form) are the ones the model was written against;
+    `_yield_functions_from` walks `self.owner.__mro__` and passes over an absent or empty store; `remove_function` passes
+    over a store that does not hold the function; the mark is `id(instance)`, `cycle` is computed before the mark is set,
+    the mark is set before the `try`, discarded in `finally` unless the call was a cycled one; a result is final when it
+    `is not None`; of `Hook.__get__` the class-level part (lazy per-subclass hook) and the remembered-value part are pinned,
+    of its computing part what `HookUse.useEval` mirrors: a remembered value that `is not None` is served from `__cache__`,
+    a computed value is stored there, and a `None` result raises AttributeError before anything is stored (the explicit-value
+    part and the other conversions are C02's and C07's) -/
+theorem hooks_source_as_modelled :
+    Gen.C01.Hooks.hook_getClass = HookSource.hook_getClass ∧
+    Gen.C01.Hooks.hook_getCached = HookSource.hook_getCached ∧
+    Gen.C01.Hooks.hookFunction_init = HookSource.hookFunction_init ∧
+    Gen.C01.Hooks.hookFunction_cycle = HookSource.hookFunction_cycle ∧
+    Gen.C01.Hooks.hookFunction_call = HookSource.hookFunction_call ∧
+    Gen.C01.Hooks.hookFunction_determineExtraArgs = HookSource.hookFunction_determineExtraArgs ∧
+    Gen.C01.Hooks.hookFunction_enter = HookSource.hookFunction_enter ∧
+    Gen.C01.Hooks.hookFunction_exit = HookSource.hookFunction_exit ∧
+    Gen.C01.Hooks.hook_init = HookSource.hook_init ∧
+    Gen.C01.Hooks.hook_setName = HookSource.hook_setName ∧
+    Gen.C01.Hooks.hook_functions = HookSource.hook_functions ∧
+    Gen.C01.Hooks.hook_getResult = HookSource.hook_getResult ∧
+    Gen.C01.Hooks.hook_addFunction = HookSource.hook_addFunction ∧
+    Gen.C01.Hooks.hook_call = HookSource.hook_call ∧
+    Gen.C01.Hooks.hookHostMeta_setattr = HookSource.hookHostMeta_setattr ∧
+    Gen.C01.Hooks.hookHost_extensionClass = HookSource.hookHost_extensionClass ∧
+    Gen.C01.Hooks.hookHost_hasValue = HookSource.hookHost_hasValue ∧
+    Gen.C01.Hooks.hookHost_reevaluateCache = HookSource.hookHost_reevaluateCache ∧
+    Gen.C01.Hooks.stateWriters = HookSource.writersOf ["_first_wrappers", "_wrappers", "_last_wrappers",
+      "_first_functions", "_functions", "_last_functions", "_active_instances"] ∧
+    Gen.C01.Hooks.classMembers = HookSource.membersOf ["HookFunction()", "Hook(Generic[T])", "_HookHostMeta(ABCMeta)"] ∧
+    Gen.C01.Hooks.yieldOver = "self.owner.__mro__" ∧ Gen.C01.Hooks.yieldGuard = "truthy" ∧
+    Gen.C01.Hooks.removeIgnoresAbsent = true ∧ Gen.C01.Hooks.callKey = "id(instance)" ∧
+    Gen.C01.Hooks.callCycleBeforeMark = true ∧ Gen.C01.Hooks.callMarkBeforeTry = true ∧
+    Gen.C01.Hooks.callDiscardClause = "finally" ∧ Gen.C01.Hooks.callDiscardGuard = "unless cycle" ∧
+    Gen.C01.Hooks.getResultTest = "is not None" ∧
+    Gen.C01.Hooks.getLookups.getLast? = some ("__cache__", "is not None") ∧ Gen.C01.Hooks.getStore = "__cache__" ∧
+    (Gen.C01.Hooks.getChecks.take Gen.C01.Hooks.getStoreAfter).contains ("is None", "AttributeError") = true := by
+  refine ⟨?_, ?_, ?_, ?_, ?_, ?_, ?_, ?_, ?_, ?_, ?_, ?_, ?_, ?_, ?_, ?_, ?_, ?_, ?_, ?_, ?_, ?_, ?_, ?_, ?_, ?_, ?_, ?_, ?_, ?_, ?_, ?_⟩ <;> first | rfl | decide
 
 /-! ## the order -/
 
